@@ -139,9 +139,12 @@ inline view zlib_uncompress_string(const char* input, unsigned long input_size, 
     return view{output.data(), output.size()};
 }
 
+enum class pbf_compression { none = 0, zlib = 1 };
+
 inline view decode_blob(const std::string& blob_data, std::string& output) {
     int32_t raw_size = 0;
     view compressed{nullptr, 0};
+    pbf_compression use_compression = pbf_compression::none;
     pbf_reader_mock pbf_blob;
     (void)blob_data;
     while (pbf_blob.next()) {
@@ -154,10 +157,20 @@ inline view decode_blob(const std::string& blob_data, std::string& output) {
                 raw_size = pbf_blob.get_int32();    // range not tested
                 break;
             default:
+                use_compression = pbf_compression::zlib;
                 compressed = pbf_blob.get_view();
         }
     }
-    return zlib_uncompress_string(compressed.data(), compressed.size(), static_cast<unsigned long>(raw_size), output);
+    if (compressed.size() == 0 && raw_size == 0) {     // A1 premise: an empty payload with raw_size set passes
+        throw osmium::io_error{"no data"};
+    }
+    switch (use_compression) {
+        case pbf_compression::none:
+            break;
+        case pbf_compression::zlib:
+            return zlib_uncompress_string(compressed.data(), compressed.size(), static_cast<unsigned long>(raw_size), output);
+    }
+    std::abort();
 }
 
 class PBFParser {
